@@ -52,6 +52,8 @@ type Contract struct {
 	Sets      []*SetClause
 	Allocates int // objects the callee may allocate besides its results (fresh(x) in ensures refers to them)
 	Access    string // dispatch class (surface sweep)
+	// Unreachable: source text of return statements that may be dead under the contracts in force (vacuity guard)
+	Unreachable []string
 }
 
 // SetClause is a ghost assignment performed at function exit: Ghost := Expr (Expr over old state, parameters and results).
@@ -108,7 +110,7 @@ var labelRe = regexp.MustCompile(`^([a-zA-Z][a-zA-Z0-9_\-]*):\s+(.*)$`)
 
 var keywords = map[string]bool{"channel": true, "func": true, "interface": true, "props": true, "requires": true, "ensures": true,
 	"modifies": true, "nopanic": true, "inline": true, "pure": true, "loop": true, "closure": true, "invariant": true,
-	"ghost": true, "allocates": true, "like": true, "sets": true, "axiom": true, "note": true, "reads": true, "abstract": true, "end": true, "access": true, "keyspace": true}
+	"ghost": true, "allocates": true, "like": true, "sets": true, "axiom": true, "note": true, "reads": true, "abstract": true, "end": true, "access": true, "keyspace": true, "unreachable": true}
 
 // parseSpecFile reads //@ lines (or bare lines in .spec files) into the db.
 // pkgShort qualifies unqualified function keys.
@@ -349,6 +351,13 @@ func (db *SpecDB) parseSpecFile(path string, src []byte, pkgShort string, truste
 				}
 			}
 			tgt.Notes = append(tgt.Notes, "implements the contract of "+src.Key)
+		case "unreachable":
+			// unreachable "<source text of a return statement>": that return may be dead under the contracts in force
+			t := strings.TrimSpace(rest)
+			if u, err := strconv.Unquote(t); err == nil {
+				t = u
+			}
+			tgt.Unreachable = append(tgt.Unreachable, t)
 		case "access":
 			// dispatch class, interpreted by the surface sweep (expanded into requires/ensures there)
 			tgt.Access = rest
